@@ -12,6 +12,7 @@ import (
 	"os"
 	"strconv"
 	"sync"
+	"sync/atomic"
 )
 
 type answer struct {
@@ -223,8 +224,25 @@ func LocksHeld() int { return 0 }
 // findings (the env source is overlaid so that its mutex has this type);
 // the engine always analyses the unmodified source.
 type RWMutex struct {
-	mu sync.RWMutex
+	mu      sync.RWMutex
+	readers int32
 }
+
+// While a harness runs one operation on one goroutine (SingleGoroutine(true)),
+// a read lock taken on a mutex that already has a reader is a recursive read
+// lock: sync.RWMutex forbids it (it deadlocks as soon as a writer queues up
+// between the two).  Native oracle for C13.D1.no-self-deadlock.
+var singleGoroutine, recursiveReadLocks int32
+
+func SingleGoroutine(on bool) {
+	if on {
+		atomic.StoreInt32(&recursiveReadLocks, 0)
+		atomic.StoreInt32(&singleGoroutine, 1)
+	} else {
+		atomic.StoreInt32(&singleGoroutine, 0)
+	}
+}
+func RecursiveReadLocks() int { return int(atomic.LoadInt32(&recursiveReadLocks)) }
 
 var yieldCounter uint32
 
@@ -241,8 +259,16 @@ func maybeYield() {
 
 func (m *RWMutex) Lock()         { maybeYield(); m.mu.Lock(); maybeYield() }
 func (m *RWMutex) Unlock()       { m.mu.Unlock(); maybeYield() }
-func (m *RWMutex) RLock()        { maybeYield(); m.mu.RLock(); maybeYield() }
-func (m *RWMutex) RUnlock()      { m.mu.RUnlock(); maybeYield() }
+func (m *RWMutex) RLock() {
+	if atomic.LoadInt32(&singleGoroutine) == 1 && atomic.LoadInt32(&m.readers) > 0 {
+		atomic.AddInt32(&recursiveReadLocks, 1)
+	}
+	maybeYield()
+	m.mu.RLock()
+	atomic.AddInt32(&m.readers, 1)
+	maybeYield()
+}
+func (m *RWMutex) RUnlock()      { atomic.AddInt32(&m.readers, -1); m.mu.RUnlock(); maybeYield() }
 func (m *RWMutex) TryLock() bool { return m.mu.TryLock() }
 
 // Input / Output: concrete (corpus) mode.  Natively Input reads VERIF_INPUT
